@@ -60,6 +60,9 @@ impl<'de> Deserializer<'de> for SeqDe {
     forward_to_deserialize_any! { bool i8 i16 i32 i64 i128 u8 u16 u32 u64 u128 f32 f64 char str string bytes byte_buf option unit unit_struct newtype_struct tuple_struct map struct enum identifier ignored_any }
 }
 
+/// string formatting on error paths dominates CBMC cost and is irrelevant to the obligations: formatted messages are empty
+fn stub_format(_args: core::fmt::Arguments<'_>) -> String { String::new() }
+
 fn any_hint() -> Option<usize> { if kani::any() { Some(kani::any()) } else { None } }
 
 /// C16: the fixed-size array visitor returns a value or an error for ANY number of announced elements.
@@ -68,6 +71,7 @@ macro_rules! array_visitor_harness {
     ($name:ident, $n:literal, $unw:literal) => {
         #[kani::proof]
         #[kani::unwind($unw)]
+        #[kani::stub(alloc::fmt::format, stub_format)]
         fn $name() {
             let count: usize = kani::any();
             kani::assume(count <= $n + 2);
@@ -82,6 +86,7 @@ array_visitor_harness!(array_visitor_total_n5, 5, 9);
 
 #[kani::proof]
 #[kani::unwind(5)]
+#[kani::stub(alloc::fmt::format, stub_format)]
 fn boxed_array_visitor_total_n1() {
     let count: usize = kani::any();
     kani::assume(count <= 3);
@@ -93,6 +98,7 @@ fn boxed_array_visitor_total_n1() {
 /// with zero elements actually present, an attacker-chosen size hint must not drive the allocation.
 #[kani::proof]
 #[kani::unwind(4)]
+#[kani::stub(alloc::fmt::format, stub_format)]
 fn vec_visitor_bounded_allocation() {
     let count: usize = kani::any();
     kani::assume(count <= 2);
@@ -238,6 +244,7 @@ fn scalar_codec_validates() {
 /// elements a self-describing format may present; Ok only when exactly N elements are present.
 #[kani::proof]
 #[kani::unwind(6)]
+#[kani::stub(alloc::fmt::format, stub_format)]
 fn big_boxed_array_total_n2() {
     let count: usize = kani::any();
     kani::assume(count <= 4);
